@@ -26,6 +26,7 @@ from mashumaro.core.meta.helpers import (
     get_literal_values,
     get_type_origin,
     get_type_var_default,
+    is_annotated,
     is_final,
     is_generic,
     is_literal,
@@ -340,6 +341,13 @@ def pack_union(
         for packer in packers:
             packer_arg_type_names = []
             for packer_arg_type in packer_arg_types[packer]:
+                while True:
+                    if is_annotated(packer_arg_type):
+                        packer_arg_type = get_type_origin(packer_arg_type)
+                    elif is_new_type(packer_arg_type):
+                        packer_arg_type = packer_arg_type.__supertype__
+                    else:
+                        break
                 if is_generic(packer_arg_type):
                     packer_arg_type = get_type_origin(packer_arg_type)
                 packer_arg_type_name = clean_id(type_name(packer_arg_type))
